@@ -133,6 +133,15 @@ CHECKS = {
         design="§8 C18",
         technique="Lean 4 proof over regenerated vocabularies + exhaustive/differential L1 status stream + rustc batch",
         note=TB + " Diagnostic texts are not compared; span accuracy only on the rustc batch."),
+    "C14": dict(
+        text="Machine-checked proofs on the model, for every reordering (List.Perm) of handler methods / override attributes / methods merged into one reply entry: "
+             "routing lists identical (sorting forgets input order: proved via antisymmetry of the byte order), wire names and fields the same multiset, a message name "
+             "selects the same variant, same set of entry points, same reply trigger and same method found for success/failure (position-independent lookup in every table "
+             "the fold can build), same cardinalities for the structural validations. Tie: real expansions of programs (valid and invalid) against two reorderings each (L1) "
+             "and compiled programs against a reordered twin on routing, dispatch, unknown-name errors, reply behaviour and builders (L2).",
+        design="§8 C14",
+        technique="Lean 4 proof (permutation invariance) + L1/L2 twin differential on the real macros",
+        note=TB + " Numeric reply ids and the order of type parameters of generic message types are positional (excluded / recorded)."),
 }
 
 ALL = ["C%02d" % i for i in range(1, 21)]
@@ -154,9 +163,9 @@ def main():
         },
         "engines": [
             {"name": "lean", "path": "lean/", "serves_properties": sorted(CHECKS), "kind_free_text": "Lean 4 model + theorems + svmodel line-protocol driver"},
-            {"name": "hook", "path": "harness/hook/", "serves_properties": ["C06", "C13", "C01", "C02", "C03", "C04", "C05", "C15", "C17", "C18"], "kind_free_text": "in-process macro expansion + source translator, compiled into sylvia-derive tests via the verif-hook feature (L1)"},
+            {"name": "hook", "path": "harness/hook/", "serves_properties": ["C06", "C13", "C01", "C02", "C03", "C04", "C05", "C14", "C15", "C17", "C18"], "kind_free_text": "in-process macro expansion + source translator, compiled into sylvia-derive tests via the verif-hook feature (L1)"},
             {"name": "rt", "path": "harness/rt/", "serves_properties": ["C05", "C01", "C11", "C20"], "kind_free_text": "Rust harness calling the real runtime library (L3)"},
-            {"name": "corpus", "path": "harness/corpus/ + vlib/corpus.py", "serves_properties": ["C01", "C02", "C03", "C04", "C05", "C07", "C08", "C09"], "kind_free_text": "generated contracts compiled against /repo/sylvia with echo handlers (L2)"},
+            {"name": "corpus", "path": "harness/corpus/ + vlib/corpus.py", "serves_properties": ["C01", "C02", "C03", "C04", "C05", "C07", "C08", "C09", "C14"], "kind_free_text": "generated contracts compiled against /repo/sylvia with echo handlers (L2)"},
         ],
         "checks": [],
         "not_applicable": [],
